@@ -3,6 +3,8 @@ import itertools
 import dns
 import pktgen
 
+# the parser needs a constant amount of stack; on a 256 KiB stack a recursion as deep as a pointer chain is long overflows (CRASH)
+STACK_KB = 256
 SLICE = "PARSE / PARSEM (Packet::parse, with allocation meter), PEEK (header_buffer on short buffers), NAME (pointer graphs)"
 RULE = ("for a valid reference encoding of every one of the 40 typed variants (plain and with arbitrary compression): every "
         "truncation point and +-1 on every length-like field (label, string, RDLENGTH, item length, section count); all buffers "
